@@ -139,6 +139,11 @@ type Program struct {
 	Structs map[string]*StructDesc
 }
 
+// Clone returns a copy whose lazily-filled tables are private (definitions are shared, read-only).
+func (p *Program) Clone() *Program {
+	return &Program{File: p.File, Defs: p.Defs, Order: p.Order, Structs: map[string]*StructDesc{}}
+}
+
 // Interp evaluates GooseLang over the engine's symbolic machine.
 type Interp struct {
 	M      *engine.Machine
